@@ -132,9 +132,6 @@ type sub struct {
 	callAt time.Time
 	err    error
 	done   chan struct{}
-
-	// set while the trial is driven
-	gotLast bool // received the last sentinel it covers: everything offered was delivered
 }
 
 func (s *sub) release() {
@@ -221,6 +218,8 @@ type trial struct {
 	writerDone  chan struct{}
 	writeErr    string
 	panicked    string
+
+	lastGen     int // generation of the last sentinels written
 
 	cbCalls, cbMaxQ, cbDupSum int64
 	start                     time.Time
@@ -945,7 +944,7 @@ func (t *trial) run() (sus *suspicion, judged bool) {
 	// Clause (2): everybody whose Send the harness does not hold receives the
 	// sentinel (hence, FIFO, everything before it) while the stalled ones stay
 	// blocked.
-	starved := -1
+	starved, gotWhileBlocked := -1, 0
 	for _, s := range t.subs {
 		s := s
 		ok := t.waitCond(stuckGrace, func() bool {
@@ -956,7 +955,7 @@ func (t *trial) run() (sus *suspicion, judged bool) {
 			break
 		}
 		if !s.isDone() && !s.blocked() {
-			s.gotLast = true
+			gotWhileBlocked++
 		}
 	}
 	stalled := t.stalledNow()
@@ -972,13 +971,7 @@ func (t *trial) run() (sus *suspicion, judged bool) {
 		return nil, false
 	}
 	if len(stalled) > 0 {
-		n := 0
-		for _, s := range t.subs {
-			if s.gotLast {
-				n++
-			}
-		}
-		r.Count("clause2_subscribers_got_sentinel_while_others_blocked", int64(n))
+		r.Count("clause2_subscribers_got_sentinel_while_others_blocked", int64(gotWhileBlocked))
 	}
 	if blockedAtStart > 0 {
 		r.Count("trials_with_subscriber_blocked_before_first_write", 1)
@@ -1006,9 +999,6 @@ func (t *trial) run() (sus *suspicion, judged bool) {
 				t.viol("released-subscriber-starved", fmt.Sprintf("subscriber %d was released after the writer had finished but did not receive the rest of its backlog (sentinel missing) for %v", s.idx, stuckGrace), map[string]interface{}{"responses_received": s.stream.NSent()})
 				skipMode[t.mode] = true
 				return nil, false
-			}
-			if !s.isDone() {
-				s.gotLast = true
 			}
 		}
 	case "timeout", "syncstall":
@@ -1070,6 +1060,7 @@ func (t *trial) run() (sus *suspicion, judged bool) {
 			return s2, false
 		}
 		t.writeSentinels(1)
+		t.lastGen = 1
 		for _, s := range t.subs {
 			s := s
 			if s.isDone() || s.blocked() {
@@ -1103,7 +1094,6 @@ func (t *trial) run() (sus *suspicion, judged bool) {
 		r.Inconclusive("late subscriber did not receive its snapshot")
 		return nil, false
 	}
-	late.gotLast = !late.isDone()
 
 	// Judge.
 	if s2 := t.checkEnds(true); s2 != nil {
@@ -1196,7 +1186,9 @@ func (t *trial) bound(s *sub) int {
 func (t *trial) judge(s *sub) bool {
 	r := t.r
 	msgs := s.stream.Sent()
-	full := s.gotLast && !s.isDone()
+	// Everything offered was delivered: the last sentinel written (the late
+	// subscriber: its sync_response) has arrived.
+	full := !s.isDone() && ((s.late && hasSync(s)) || (!s.late && t.hasSentinel(s, t.lastGen)))
 	type acc struct {
 		sum, dels int
 		lastDel   bool
@@ -1399,6 +1391,16 @@ func (t *trial) judge(s *sub) bool {
 	return ok
 }
 
+// hasSyncBefore: was the sync_response delivered before the held response?
+func hasSyncBefore(s *sub) bool {
+	for i, m := range s.stream.Sent() {
+		if i < s.gateAt && m.GetSyncResponse() {
+			return true
+		}
+	}
+	return false
+}
+
 func lastOf(seen, del bool, v int64) string {
 	switch {
 	case !seen:
@@ -1460,6 +1462,12 @@ func record(r *vlib.Run, t *trial) {
 	for _, s := range t.subs {
 		if s.hasEntered() {
 			entered++
+			r.Count("stalls_entered_"+patName[s.pattern], 1)
+			if s.gatedOnSync {
+				r.Count("stalls_entered_on_the_sync_response", 1)
+			} else if !hasSyncBefore(s) {
+				r.Count("stalls_entered_with_sync_marker_still_pending", 1)
+			}
 		}
 		sig = append(sig, fmt.Sprintf("%v/%v/%d/%d/%v", s.paths, s.updatesOnly, s.pattern, s.gateAt, s.hasEntered()))
 	}
@@ -1487,9 +1495,9 @@ func record(r *vlib.Run, t *trial) {
 }
 
 func body(r *vlib.Run) {
-	r.ForTrials("stall", r.N(64, 1200), func(trial int, _ *rand.Rand) { runEscalating(r, "stall", trial) })
-	r.ForTrials("timeout", r.N(24, 320), func(trial int, _ *rand.Rand) { runEscalating(r, "timeout", trial) })
-	r.ForTrials("syncstall", r.N(8, 48), func(trial int, _ *rand.Rand) { runEscalating(r, "syncstall", trial) })
+	r.ForTrials("stall", r.N(240, 12000), func(trial int, _ *rand.Rand) { runEscalating(r, "stall", trial) })
+	r.ForTrials("timeout", r.N(64, 2400), func(trial int, _ *rand.Rand) { runEscalating(r, "timeout", trial) })
+	r.ForTrials("syncstall", r.N(16, 320), func(trial int, _ *rand.Rand) { runEscalating(r, "syncstall", trial) })
 }
 
 func postMerge(tier string, c map[string]int64) []string {
@@ -1525,7 +1533,7 @@ func main() {
 			"in-memory streams: gRPC flow control itself is not exercised; ending the RPC is observed as Subscribe returning",
 		},
 		QuickShards: 8, ThoroughShards: 16,
-		MinDistinctQuick: 30, MinDistinctThorough: 600,
+		MinDistinctQuick: 100, MinDistinctThorough: 5000,
 		PostMerge: postMerge,
 		Body:      body,
 	})
